@@ -101,4 +101,16 @@ TEXT = {
         "note": NOTE,
         "technique": "runtime monitor: map model with permitted forgetting over insert/get histories + paired-builder differential (all-cache vs tiny lossy cache) + warm-vs-cold SDD replay",
     },
+    "C17": {
+        "level": "Exploration by runtime monitoring: generated DIMACS texts and s-expressions are parsed by rsdd and compared with the harness's own evaluation under the documented numbering; print/re-parse round trips are compared as clause sets; JSON serialisations of BDDs, SDDs and vtrees are read by an independent Python reader and compared with oracle truth tables / trees.",
+        "design_ref": "DESIGN.md section 4, C17",
+        "note": NOTE + " The Python reader (pyoracle/ddjson.py) is part of the trusted base.",
+        "technique": "runtime monitor: generated-text round trips against an independent evaluator + independent (Python) reader of the JSON node tables compared with oracle truth tables",
+    },
+    "C19": {
+        "level": "Exploration by runtime monitoring at the process boundary: the real binaries built from /repo are run on generated formula / weights / config / DIMACS files and their stdout is compared with exact brute-force counts (fractions) and, for the converters, with the input's truth table through the independent JSON reader.",
+        "design_ref": "DESIGN.md section 4, C19",
+        "note": NOTE + " Python's fractions and the JSON reader are part of the trusted base.",
+        "technique": "runtime monitor: black-box differential testing of the built binaries against exact brute-force counting and an independent JSON reader",
+    },
 }
